@@ -264,6 +264,30 @@ def check_contract(arg):
         runs.append(("repeat", tuple(tests) , None))
         runs.append(("uid-const", tuple(tests), "const"))
         runs.append(("uid-counter", tuple(tests), "counter"))
+        # --early-exit: the executor shutdown triggered by one test's counterexample must not affect the next test
+        ee_base = {}
+        for t in tests:
+            r1, _, _ = observe(spec, others, [t], early_exit=True, **over)
+            if t in r1:
+                ee_base[t] = r1[t]
+        for order in (tuple(tests), tuple(reversed(tests))):
+            res, _, o = observe(spec, others, order, early_exit=True, **over)
+            for t in order:
+                ident = f"{name}:{t} [early-exit:{'>'.join(x.split('(')[0] for x in order)}]"
+                if t not in ee_base:
+                    continue
+                # with --early-exit the number of reported counterexamples may vary with solver timing; the verdict may not
+                if t in res and res[t]["exitcode"] == ee_base[t]["exitcode"]:
+                    rec.ok("verdict-stable/early-exit", ident)
+                else:
+                    res2, _, _ = observe(spec, others, order, early_exit=True, **over)
+                    alone2, _, _ = observe(spec, others, [t], early_exit=True, **over)
+                    if t in alone2 and (t not in res2 or res2[t]["exitcode"] != alone2[t]["exitcode"]):
+                        rec.violation("verdict-stable/early-exit", f"{name}/{t.split('(')[0]}/early-exit",
+                                      f"{ident}: exit code {res2[t]['exitcode'] if t in res2 else 'missing'} differs from the run alone "
+                                      f"{alone2[t]['exitcode']}", {"ident": ident})
+                    else:
+                        rec.inconc("verdict-stable/early-exit", ident, "difference did not reproduce on re-run")
         for label, order, uidm in runs:
             res, paths, o = observe(spec, others, order, uid_mode=uidm, **over)
             for t in order:
